@@ -120,6 +120,27 @@ void __vf_assert_fail(const char *id) { printf("ASSERTION FAILED: %s\n", id); ex
 void __vf_reached(void) { printf("REACHED\n"); }
 #endif
 void __vf_access(void *p, int w) {}
+/* ---- C12 lock-discipline obligations (inserted by vf/lockinst.py at the entry of functions that touch shared state) */
+uint32_t x_verif_lock_depth(void) { return (uint32_t)__vf_lock_depth; }
+void x___vf_lockreq_always(P t) { VF_ASSERT(__vf_lock_depth > 0, "VA:C12.shared_state_accessed_without_the_lock"); }
+void x___vf_lockreq_monitor(P t) { VF_ASSERT(__vf_lock_depth > 0, "VA:C12.shared_state_accessed_without_the_lock"); }
+void x___vf_lockreq_linked(P t) {          /* list_elem {vptr, next, prev}: unlinking a linked element rewrites its neighbours */
+  P next = *(P*)(t + 8);
+  if (next != t) VF_ASSERT(__vf_lock_depth > 0, "VA:C12.linked_element_unlinked_without_the_lock");
+}
+#ifdef __CPROVER__
+#define VF_OBJSIZE(p) __CPROVER_OBJECT_SIZE(p)
+#else
+#include <malloc.h>
+#define VF_OBJSIZE(p) malloc_usable_size(p)
+#endif
+void x___vf_lockreq_limits(P t) {          /* sequence_handler<N>, N>=1: base (32 bytes) + handles; handle 0 linked => visible through its sequence */
+  if (VF_OBJSIZE(t) > 40) {
+    P h0 = t + 32;
+    P next = *(P*)(h0 + 8);
+    if (next != h0) VF_ASSERT(__vf_lock_depth > 0, "VA:C12.limits_written_without_the_lock_while_registered_in_a_sequence");
+  }
+}
 void f_harness(void);
 int main(int argc, char **argv) {
 #ifndef __CPROVER__
